@@ -115,7 +115,19 @@ def r2(ctx):
         ok = bool(bw) and not miss
         ctx.inst(R, f"{b.id}:bound-follows-binding", ok, t["s"], "binding index and Socket::bound are set together" if ok else
                  f"`{b.id}` inserts a binding but a path to return leaves Socket::bound unset: close cannot find and free the binding")
-    ctx.floor(R, 4)
+    # converse: wherever Socket::bound is set, the binding index is updated in the same function (before or after, on every path)
+    for b in sorted(ctx.w.bodies.values(), key=lambda b: b.id):
+        if b.crate != "turmoil_net" or b.id.startswith("turmoil_net::kernel::socket::") or "::tests::" in b.id:
+            continue
+        for wb, i, s in b.all_stmts():
+            if place_last_field(s["p"]) != "turmoil_net::kernel::socket::Socket::bound":
+                continue
+            cb = [x for x, t in b.calls(ST + "insert_binding")]
+            ok = bool(cb) and (b.dominated_by_any(wb, blocks=cb) or not always_passes(b, cb, frm=wb))
+            ctx.inst(R, f"{b.id}:binding-with-bound", ok, s["s"], "Socket::bound is set together with the binding index" if ok else
+                     f"`{b.id}` marks the socket as bound without inserting it in the binding index: the bind-conflict check and the "
+                     "ephemeral-port scan do not see this socket (its port can be bound again while it is alive)")
+    ctx.floor(R, 8)
 
 
 def r3(ctx):
